@@ -107,6 +107,14 @@ Proof.
   destruct (p a) eqn:E; [rewrite (H _ E)|destruct (q a)]; lia.
 Qed.
 
+Lemma count_lt : forall A (p q : A -> bool) (l : list A) i x, (forall y, p y = true -> q y = true) ->
+  nth_error l i = Some x -> p x = false -> q x = true -> count p l + 1 <= count q l.
+Proof.
+  induction l as [|a l IH]; intros [|i] x H Hn Hp Hq; simpl in *; try discriminate.
+  - inversion Hn; subst. rewrite Hp, Hq. pose proof (count_le _ p q l H). lia.
+  - specialize (IH i x H Hn Hp Hq). destruct (p a) eqn:E; [rewrite (H _ E)|destruct (q a)]; lia.
+Qed.
+
 Section TS.
   Context {G T : Type}.
   Variable tstep : nat -> G -> T -> option (G * T).
